@@ -787,36 +787,121 @@ func nonNilEdgesOf(fn *ssa.Function, v ssa.Value) []Edge {
 			if h == nil {
 				return false, false
 			}
-			for i, a := range x.Common().Args {
-				if i >= len(h.Params) || !(a == v || samePath(a, v)) {
-					continue
-				}
-				prm := h.Params[i]
-				live := ReachUnder(h, func(b ssa.Value) (bool, bool) {
-					bo, ok := b.(*ssa.BinOp)
-					if !ok || (bo.Op != token.EQL && bo.Op != token.NEQ) {
-						return false, false
-					}
-					if (bo.X == ssa.Value(prm) && isNilConst(bo.Y)) || (bo.Y == ssa.Value(prm) && isNilConst(bo.X)) {
-						return bo.Op == token.EQL, true
-					}
+			// the helper explored under "v is nil" (its conditions read in this function's terms: the helper may be
+			// handed the pointer itself or the record that contains it): when it then always gives one answer, the
+			// other answer implies v != nil
+			assumeNil := func(b ssa.Value) (bool, bool) {
+				bo, ok := b.(*ssa.BinOp)
+				if !ok || (bo.Op != token.EQL && bo.Op != token.NEQ) {
 					return false, false
-				})
-				first, have, all := false, false, true
-				for _, rv := range live.LiveReturns(h, 0) {
-					val, known := live.EvalBool(rv)
-					if !known || (have && val != first) {
-						all = false
-						break
-					}
-					first, have = val, true
 				}
-				if all && have {
-					// with a nil argument the helper always answers `first`: the other answer implies non-nil
-					return !first, true
+				var o ssa.Value
+				if isNilConst(bo.Y) {
+					o = bo.X
+				} else if isNilConst(bo.X) {
+					o = bo.Y
+				} else {
+					return false, false
 				}
+				if o == v || samePath(o, v) || sameAccessPath(o, v) {
+					return bo.Op == token.EQL, true
+				}
+				return false, false
+			}
+			mentions := false
+			for _, a := range x.Common().Args {
+				if a == v || samePath(a, v) || containsPathOf(a, v) {
+					mentions = true
+				}
+			}
+			if !mentions {
+				return false, false
+			}
+			live := ReachUnder(h, liftEval(assumeNil, h, x))
+			first, have, all := false, false, true
+			for _, rv := range live.LiveReturns(h, 0) {
+				val, known := live.EvalBool(rv)
+				if !known || (have && val != first) {
+					all = false
+					break
+				}
+				first, have = val, true
+			}
+			if all && have {
+				return !first, true
 			}
 		}
 		return false, false
 	})
+}
+
+// accessPath: a value as (root, field indices): `*(&x.A).B`, `(*x).A.B`, Field(Field(load x, A), B) all give (x, [A B]).
+// Roots are allocs (the cell), pointer values and plain values.
+func accessPath(v ssa.Value) (root ssa.Value, fields []int, ok bool) {
+	var ptrPath func(p ssa.Value, d int) (ssa.Value, []int, bool)
+	ptrPath = func(p ssa.Value, d int) (ssa.Value, []int, bool) {
+		if d > 8 {
+			return nil, nil, false
+		}
+		switch x := p.(type) {
+		case *ssa.FieldAddr:
+			r, f, ok := ptrPath(x.X, d+1)
+			if !ok {
+				return nil, nil, false
+			}
+			return r, append(f, x.Field), true
+		default:
+			return p, nil, true // an alloc (the cell) or a pointer value
+		}
+	}
+	var valPath func(x ssa.Value, d int) (ssa.Value, []int, bool)
+	valPath = func(x ssa.Value, d int) (ssa.Value, []int, bool) {
+		if d > 8 {
+			return nil, nil, false
+		}
+		switch y := x.(type) {
+		case *ssa.UnOp:
+			if y.Op != token.MUL {
+				return nil, nil, false
+			}
+			return ptrPath(y.X, d+1)
+		case *ssa.Field:
+			r, f, ok := valPath(y.X, d+1)
+			if !ok {
+				return nil, nil, false
+			}
+			return r, append(f, y.Field), true
+		}
+		return x, nil, true
+	}
+	return valPath(v, 0)
+}
+
+func sameAccessPath(a, b ssa.Value) bool {
+	ra, fa, oka := accessPath(a)
+	rb, fb, okb := accessPath(b)
+	if !oka || !okb || ra != rb || len(fa) != len(fb) || len(fa) == 0 {
+		return false
+	}
+	for i := range fa {
+		if fa[i] != fb[i] {
+			return false
+		}
+	}
+	return true
+}
+
+// containsPathOf: v is selected (by field accesses) from the record a stands for.
+func containsPathOf(a, v ssa.Value) bool {
+	ra, fa, oka := accessPath(a)
+	rv, fv, okv := accessPath(v)
+	if !oka || !okv || ra != rv || len(fa) >= len(fv) {
+		return false
+	}
+	for i := range fa {
+		if fa[i] != fv[i] {
+			return false
+		}
+	}
+	return true
 }
